@@ -185,6 +185,10 @@ static void scenario(report& r, int mode, bool preexisting, bool leftover = fals
         if (predicted != list_dir())
         {
             std::fprintf(stderr, "HARNESS: file system activity bypassed the interposer in %s (log has %zu operations)\n", base.c_str(), log.size());
+            auto const real_dir = list_dir();
+            for (auto const& f : predicted) std::fprintf(stderr, "  predicted %s: %zu bytes\n", f.first.c_str(), f.second.size());
+            for (auto const& f : real_dir) std::fprintf(stderr, "  real      %s: %zu bytes%s\n", f.first.c_str(), f.second.size(), predicted.count(f.first) && predicted.at(f.first) == f.second ? " (same)" : "");
+            for (auto const& op : log) std::fprintf(stderr, "  op %s\n", describe_op(op).c_str());
             std::exit(2);
         }
     }
@@ -195,7 +199,7 @@ static void scenario(report& r, int mode, bool preexisting, bool leftover = fals
         r.violate("writing-mode-writes-nothing", base, base + ": the run finished without a single file system call on the checkpoint path");
         return;
     }
-    for (auto const& op : log) if (op.kind == vf::fs_open && op.path != g_chk) g_side_files.insert(op.path);
+    for (auto const& op : log) if (op.kind == vf::fs_open && !op.failed && op.path != g_chk) g_side_files.insert(op.path);
     r.count("logged_operations", log.size());
     {
         auto const at_end = vf::fs_replay(initial, log, log.size(), 0);
@@ -354,7 +358,7 @@ int main(int argc, char** argv)
 {
     auto const a = vf::parse_args(argc, argv);
     report r(a);
-    ::mkdir("build/out/tmp", 0777);
+    ::mkdir("build", 0777); ::mkdir("build/out", 0777); ::mkdir("build/out/tmp", 0777);
     char tmpl[] = "build/out/tmp/c18_XXXXXX";
     if (!mkdtemp(tmpl)) { std::perror("mkdtemp"); return 2; }
     g_dir = tmpl;
